@@ -40,7 +40,7 @@ use dmntk_feel::context::FeelContext;
 use dmntk_feel::values::Value;
 use dmntk_feel::{value_null, Name};
 use dmntk_model::model::{Definitions, DmnElement};
-use std::collections::HashMap;
+use std::collections::{HashMap, HashSet};
 use std::sync::{Arc, RwLock, RwLockReadGuard};
 
 ///
@@ -83,19 +83,26 @@ fn check_requirements(definitions: &Definitions) -> Result<()> {
       required.extend(decision_service.output_decisions().iter().map(String::from));
     }
   }
-  // a chain of requirements longer than the number of elements visits some element twice
-  fn check_chain(id: &str, requirements: &HashMap<String, Vec<String>>, length: usize) -> Result<()> {
+  // an element that is required again by the chain of requirements below it requires itself;
+  // an element whose requirements were already followed to their ends is not followed again
+  fn check_chain<'a>(id: &'a str, requirements: &'a HashMap<String, Vec<String>>, chain: &mut HashSet<&'a str>, checked: &mut HashSet<&'a str>) -> Result<()> {
     if let Some(required) = requirements.get(id) {
-      if length > requirements.len() {
+      if checked.contains(id) {
+        return Ok(());
+      }
+      if !chain.insert(id) {
         return Err(err_cyclic_requirements(id));
       }
       for required_id in required {
-        check_chain(required_id, requirements, length + 1)?;
+        check_chain(required_id, requirements, chain, checked)?;
       }
+      chain.remove(id);
+      checked.insert(id);
     }
     Ok(())
   }
-  requirements.keys().try_for_each(|id| check_chain(id, &requirements, 1))
+  let mut checked = HashSet::new();
+  requirements.keys().try_for_each(|id| check_chain(id, &requirements, &mut HashSet::new(), &mut checked))
 }
 
 ///
